@@ -5,21 +5,59 @@ From Coq Require Import String.
 From OCI Require Export Base.Outcome Model.UnifyConc Model.UnifyConcSpec.
 From OCI Require Import Proofs.UnifyConc.
 
-(* One call of one entry point: the two members' kinds, the schedule the harness played
-   (event, wait-for-quiet-and-observe), and the snapshots it recorded, one per waiting event. *)
+(* How the harness builds a member.  The property quantifies over members as black boxes; the
+   unifier must treat them alike whatever they are made of.  Besides the plain fake registry
+   (ShLeaf) a member can hand out a reader that implements more than BlobReader (ShRich), or be
+   itself an ociunify registry over the fake and a registry that fails every read at once -
+   the way three registries are unified - under the sequential policy (ShSeq; [wrapped]: behind
+   a pass-through wrapper that hides its type, [leaf_first]: position of the fake in it) or
+   under the concurrent policy behind the wrapper (ShConc).  The context observed is the one
+   the unifier under test gave to the member (recorded by the wrapper when there is one).
+   As a member each of these answers exactly as the fake inside it does, with one exception:
+   a concurrent inner unifier gives up when its context is cancelled, which is none of the
+   member kinds of the model - so ShConc is played only with a gated fake and in schedules in
+   which the caller does not cancel before the member's answer has settled. *)
+Inductive shape := ShLeaf | ShRich | ShSeq (wrapped leaf_first : bool) | ShConc (leaf_first : bool).
+
+(* One call of one entry point: the two members' kinds and shapes, the schedule the harness
+   played (event, wait-for-quiet-and-observe), and the snapshots it recorded, one per waiting
+   event. *)
 Record case := {
   c_entry : entry;
   c_k0 : kind; c_k1 : kind;
+  c_sh0 : shape; c_sh1 : shape;
   c_sched : list (ev * bool);
   c_snaps : list snapshot
 }.
 
 Definition c_init (c : case) : state := init (style_of (c_entry c)) (c_k0 c) (c_k1 c).
 
+(* no cancellation until a quiet moment at which the call has been made and member i's gate
+   has been opened *)
+Fixpoint settled_before_cancel (i : mem) (started answered : bool) (l : list (ev * bool)) : bool :=
+  match l with
+  | [] => true
+  | (e, w) :: r =>
+      match e with
+      | ECancel => false
+      | _ =>
+          let started' := started || match e with EStart => true | _ => false end in
+          let answered' := answered || match e with ERet j _ => mem_beq i j | _ => false end in
+          if started' && answered' && w then true else settled_before_cancel i started' answered' r
+      end
+  end.
+
+Definition shape_fits (i : mem) (k : kind) (sh : shape) (l : list (ev * bool)) : bool :=
+  match sh with
+  | ShConc _ => kind_beq k Gated && settled_before_cancel i false false l
+  | _ => true
+  end.
+
 (* Go's select may pick among ready cases, so the model yields a set of allowed observations:
-   agreement is membership. *)
+   agreement is membership.  The members' shapes do not enter the prediction. *)
 Definition model_agrees (c : case) : bool :=
-  existsb (list_eqb snapshot_eqb (c_snaps c)) (run run_fuel (c_sched c) [c_init c]).
+  shape_fits M0 (c_k0 c) (c_sh0 c) (c_sched c) && shape_fits M1 (c_k1 c) (c_sh1 c) (c_sched c)
+  && existsb (list_eqb snapshot_eqb (c_snaps c)) (run run_fuel (c_sched c) [c_init c]).
 
 (* the property, judged on the observation alone *)
 Definition obs_ok (c : case) : bool := seq_ok (style_of (c_entry c)) (c_snaps c).
@@ -45,6 +83,7 @@ Qed.
 Lemma corr_sound c : model_agrees c = true -> obs_ok c = true.
 Proof.
   unfold model_agrees, obs_ok, c_init. intros H.
+  apply andb_true_iff in H as [_ H].
   apply existsb_exists in H as [l [Hl E]].
   apply (list_eqb_eq snapshot_eqb snapshot_eqb_iff) in E. rewrite E.
   now apply (schedules_ok _ (c_k0 c) (c_k1 c) (c_sched c)).
